@@ -798,7 +798,7 @@ outer:
 	b := drv.Pick(c, 2, 3)
 	races := []string{"race/samefixed-tcp", "race/samefixed-udp", "race/zero-vs-reserved", "race/close-reopen-tcp", "race/close-reopen-udp", "fault/grabbed-after-acquire"}
 	for i, r := range races {
-		c.Explore(r, b, 1.0/float64(len(races)-i))
+		c.ExploreBoth(r, b, 1.0/float64(len(races)-i))
 	}
 	c.Finish()
 }
